@@ -8,11 +8,12 @@ import core
 import engines.numeric as en
 
 PROP = 'C18'
-LEAN_TARGETS = ['MM.Props.C07C18', 'MM.Driver.Wire', 'MM.Model.Numeric']
+LEAN_TARGETS = ['MM.Props.C07C18', 'MM.Driver.Wire', 'MM.Model.Numeric', 'MM.Props.MemoTie']
 THEOREMS = ['MM.Numeric.' + n for n in (
     'C18_cumulative_order', 'C18_pointwise_order_partial', 'C18_pointwise_order_fails', 'C18_counterfactual_sum',
     'C18_counterfactual_order', 'C18_counterfactual_order_iff', 'C18_pointwise_telescopes', 'C18_last_date',
     'C18_cumulative_order_bundle', 'quantile_nonpos', 'quantile_nonneg')]
+THEOREMS = list(THEOREMS) + ['MM.Memo.tie_memoised']
 TRUSTED_BASE = [
     'Lean 4.33.0 kernel + Mathlib; axioms propext, Classical.choice, Quot.sound (audited per theorem)',
     'model of the band construction (cumulativeBand / pointwiseBand / counterfactualBand in MM/Model/Numeric.lean) given the cumulative '
